@@ -221,14 +221,8 @@ func encodeJson(ctx context.Context, fp io.Writer, view *View, options option.Ex
 	e.FloatFormat = jsonFloatFormat(options.ScientificNotation)
 	if options.PrettyPrint && options.Color {
 		e.Palette = palette
+		defer palette.Enable()
 	}
-	defer func() {
-		if options.Color {
-			palette.Enable()
-		} else {
-			palette.Disable()
-		}
-	}()
 
 	s, err := e.Encode(data)
 	if err != nil {
@@ -259,14 +253,8 @@ func encodeJsonLines(ctx context.Context, fp io.Writer, view *View, options opti
 	e.FloatFormat = jsonFloatFormat(options.ScientificNotation)
 	if options.PrettyPrint && options.Color {
 		e.Palette = palette
+		defer palette.Enable()
 	}
-	defer func() {
-		if options.Color {
-			palette.Enable()
-		} else {
-			palette.Disable()
-		}
-	}()
 
 	lineBreak := e.LineBreak.Value()
 	w := bufio.NewWriter(fp)
